@@ -324,7 +324,7 @@ def law_scenario(rng, t, n, src, cls="normal", fx_over=None):
     sig = lambda kinds: {"k": rng.choice(kinds), "seed": rng.randrange(1 << 48), "amp": rng.choice([1.0, 1.0, 0.5, 0.5, 0.25, 2.0 ** -10])}
     lin = is_linear(fx)
     k = conditioning(fx, sr, n) if lin else None
-    laws = ["dry", "silence", "finite", "split"]
+    laws = ["dry", "silence", "finite", "finite_after_rate_change", "split"]
     if lin and k is not None and k <= KMAX:
         laws += ["superpose", "scale"]
     p2 = rng.choice([{"k": "rand", "seed": rng.randrange(1 << 40)}, {"k": "rand", "seed": rng.randrange(1 << 40)},
@@ -380,7 +380,7 @@ def gen_defect_classes(rng):
                 fx = dict(fx, time_ns=t, nested=[])
                 return fx, dict(fx, mix=0.0), "delay time_ns=%d (shorter than one frame)" % t
             s = law_scenario(rng, "delay", n, "defect-class", cls="subframe_delay", fx_over=fo)
-            s["laws"] = ["finite", "silence", "dry", "split"]
+            s["laws"] = ["finite", "finite_after_rate_change", "silence", "dry", "split"]
             scen.append(s)
     for drive in (-60.0, -61.0, -100.0):
         for kind in (0, 1):
@@ -388,7 +388,7 @@ def gen_defect_classes(rng):
                 fx = dict(fx, drive=drive, kind=kind)
                 return fx, dict(fx, mix=0.0), "dist kind=%d drive=%g (silent drive)" % (kind, drive)
             s = law_scenario(rng, "dist", 16, "defect-class", cls="drive_silent", fx_over=fo)
-            s["laws"] = ["finite", "silence", "dry", "split"]
+            s["laws"] = ["finite", "finite_after_rate_change", "silence", "dry", "split"]
             scen.append(s)
     return scen
 
